@@ -11,6 +11,7 @@ import EPV.Lemmas.SeqTypeInst
 import EPV.Lemmas.SeqTypeSpec
 import EPV.Lemmas.SeqTypeHist
 import EPV.Lemmas.SeqTypeText
+import EPV.Lemmas.SeqTypeErr
 namespace EPV.C18
 open EPV.SeqType
 
@@ -164,6 +165,35 @@ theorem treat_as_returns_operand (tb : Tables) (xsd11 : Bool) (t : Ty) (v w : Li
   cases hi : instanceOf tb xsd11 t v with
   | error e => simp [hi] at h
   | ok b => cases b <;> simp [hi] at h; exact ⟨h.symm, rfl⟩
+
+/-! ## error codes of the judgements -/
+
+/-- An error raised by the operand expression (the XPDY0050 of a nested `treat as`, an XPTY0004, a FORG0001 …)
+leaves `instance of` and `treat as` unchanged, whatever the sequence type is. -/
+theorem operand_error_propagates (tb : Tables) (xsd11 : Bool) (t : Ty) (c : Nat) :
+    instanceOfOp tb xsd11 t (.error c) = .operandErr c ∧ treatAsOp tb xsd11 t (.error c) = .operandErr c :=
+  ⟨rfl, rfl⟩
+
+/-- `instance of` itself never raises a dynamic error: the only error it can raise is the static XPST0051 (the
+type name is no atomic type of the static context) -/
+theorem instance_of_raises_only_static (tb : Tables) (xsd11 : Bool) (t : Ty) (v : List Item) (e : Err)
+    (h : instanceOf tb xsd11 t v = .error e) : e = .XPST0051 :=
+  instanceOf_error tb xsd11 t v e h
+
+/-- `treat as` raises XPDY0050 (exactly when `instance of` is false) or the same static XPST0051 -/
+theorem treat_as_raises_XPDY0050_or_static (tb : Tables) (xsd11 : Bool) (t : Ty) (v : List Item) (e : Err)
+    (h : treatAs tb xsd11 t v = .error e) : e = .XPDY0050 ∨ e = .XPST0051 := by
+  rw [treat_as_identity_or_XPDY0050] at h
+  cases hi : instanceOf tb xsd11 t v with
+  | error e' =>
+    rw [hi] at h; simp at h
+    right; rw [← h]; exact instanceOf_error tb xsd11 t v e' hi
+  | ok b => cases b <;> rw [hi] at h <;> simp at h; left; exact h.symm
+
+/-- `match_sequence_type` raises only the static XPST0051 -/
+theorem match_raises_only_static (tb : Tables) (xsd11 : Bool) (t : Ty) (strict : Bool) (v : List Item) (e : Err)
+    (h : matchSt tb xsd11 strict t v = .error e) : e = .XPST0051 :=
+  matchSt_error tb xsd11 t strict v e h
 
 /-! ## names and namespaces -/
 
